@@ -1,2 +1,120 @@
-(* C17 stub - replaced below *)
-From QV Require Import Model.Qft Model.SingleQubit.
+(* C17 - Single-qubit decompositions and QFT circuits are exact.
+   Decomposition half: Gen/SingleQubit.v (regenerated from decompose_single_qubit_gate.py on every run) gives the gate
+   tuples and the angle arithmetic; cmath.phase / complex np.sqrt / np.arctan2 are universally quantified functions
+   constrained by their defining equations; U ranges over ALL complex 2x2 matrices with U^dagger U = 1.
+   "applying the returned gates in the returned order" = first element applied first ([circuit_product]).
+   QFT half: Model/Qft.v; semantics [qden] = the generated library matrix (Gen/Gates.v) of each gate at its real angle
+   n*pi/2^d, composed by the shared circuit semantics [sem] (any register: qubits outside the gate are untouched). *)
+From Coq Require Import Reals List String.
+From Coquelicot Require Import Coquelicot.
+From QV Require Import Found.Base Found.KS Found.KSProofs Found.Sym Found.SymProofs Found.CInst.
+From QV Require Import Gen.Gates Gen.SingleQubit Model.SingleQubit Model.Qft.
+From QV Require Import Proofs.C17Sem Proofs.QftStruct Proofs.QftSem Proofs.QftDft Proofs.Euler Proofs.EulerWitness.
+Import ListNotations.
+Local Open Scope string_scope.
+Local Open Scope list_scope.
+
+(* ================= single-qubit decompositions ================= *)
+
+(* Proofs/Euler.v:  phase_spec f := forall z, z = |z| * cis (f z);   sqrt_spec s := forall z, s z * s z = z;
+   atan2_spec a := forall y x, 0 < x*x + y*y -> cos (a y x) = x / sqrt (x*x+y*y) /\ sin (a y x) = y / sqrt (x*x+y*y);
+   exact_for method := forall cphase csqrt atan2 satisfying these, forall U with U^dagger U = 1,
+     exists P, method_product method = Some P /\
+       forall i j < 2, mden (angles cphase csqrt atan2 U) P i j = entry U i j.
+   i.e. the ordered product of the returned gates at the angles the code extracts from U is U, global phase included *)
+Theorem zyz_exact : exact_for "ZYZ".
+Proof. exact zyz_exact_l. Qed.
+Print Assumptions zyz_exact.
+
+Theorem zxz_exact : exact_for "ZXZ".
+Proof. exact zxz_exact_l. Qed.
+Print Assumptions zxz_exact.
+
+Theorem zyz_paulix_exact : exact_for "ZYZ_PauliX".
+Proof. exact zyz_paulix_exact_l. Qed.
+Print Assumptions zyz_paulix_exact.
+
+(* the method dictionary contains exactly the three methods of the property *)
+Theorem methods_are_the_three : map fst sq_methods = ["ZYZ"; "ZXZ"; "ZYZ_PauliX"].
+Proof. exact methods_three. Qed.
+Print Assumptions methods_are_the_three.
+
+(* only the promised rotation axes / Pauli gate / global phase occur, all on qubit 0 *)
+Theorem axes_as_promised : axes_ok "ZYZ" = true /\ axes_ok "ZXZ" = true /\ axes_ok "ZYZ_PauliX" = true.
+Proof. exact axes_ok_all. Qed.
+Print Assumptions axes_as_promised.
+
+(* the symbolic core, for ALL real values of the four primitives: product of the tuple (angle arithmetic substituted)
+   = the parametrised unitary [uprim] *)
+Theorem decomposition_identity_all_angles : forall method P th, method_product method = Some P -> param_ok method = true ->
+  forall i j, (i < 2)%nat -> (j < 2)%nat -> mden th (msubst sq_angles P) i j = mden th uprim i j.
+Proof. exact param_sound. Qed.
+Print Assumptions decomposition_identity_all_angles.
+
+(* non-vacuity: functions satisfying the three specifications exist, and a non-diagonal unitary with det -1 *)
+Example external_specs_satisfiable : exists cphase csqrt atan2, phase_spec cphase /\ sqrt_spec csqrt /\ atan2_spec atan2.
+Proof. exact specs_inhabited. Qed.
+Print Assumptions external_specs_satisfiable.
+Example unitary_example : unitary2 (M2 (RtoC 0) Ci (Copp Ci) (RtoC 0)) /\ det2 (M2 (RtoC 0) Ci (Copp Ci) (RtoC 0)) = Copp (RtoC 1).
+Proof. exact unitary_witness. Qed.
+Example zyz_product_shape : exists m1 m2 m3 s, method_product "ZYZ" = Some (MScale s (MMul m3 (MMul m2 (MMul m1 mid2)))).
+Proof. do 4 eexists. vm_compute. reflexivity. Qed.
+
+(* ================= QFT ================= *)
+
+(* the sequence exists exactly for N >= 1 (ValueError otherwise), for every option *)
+Theorem qft_sequence_defined : forall N sw tc,
+  ((1 <= N)%nat -> qft_gate_sequence N sw tc = Some (qft_body N sw tc)) /\ ((N < 1)%nat -> qft_gate_sequence N sw tc = None).
+Proof. exact sequence_defined. Qed.
+Print Assumptions qft_sequence_defined.
+
+(* step list and circuit agree: ALL N, both swapping options (also in being rejected) *)
+Theorem qft_steps_eq_sequence : forall N sw, qft_steps N sw = option_map (map step_of_gate) (qft_gate_sequence N sw false).
+Proof. exact steps_eq_sequence. Qed.
+Print Assumptions qft_steps_eq_sequence.
+
+(* every gate names distinct qubits inside the register: ALL N, all options *)
+Theorem qft_sequence_wf : forall N sw tc l, qft_gate_sequence N sw tc = Some l -> Forall (gate_wf N) l.
+Proof. exact sequence_wf. Qed.
+Print Assumptions qft_sequence_wf.
+
+Theorem qft_sequence_length : forall N sw tc l, qft_gate_sequence N sw tc = Some l ->
+  length l = ((if tc then 6 else 1) * tri N + N + (if sw then N / 2 else 0))%nat.
+Proof. exact sequence_length. Qed.
+Print Assumptions qft_sequence_length.
+
+(* one controlled phase: the six gates _cphase_to_cnot emits act as CPHASE(phi) times the scalar e^{i phi/2};
+   every angle n*pi/2^d, every pair of distinct qubits, every register *)
+Theorem cphase_to_cnot_exact : forall (t c : nat) (phi : ang) l, c <> t -> cphase_to_cnot [t] [c] phi = Some l ->
+  sem (map qden l) = sem [qden (QG "CPHASE" [t] [c] (Some phi)); phase_gate (cis (aval phi / 2))].
+Proof. exact cphase_to_cnot_sem. Qed.
+Print Assumptions cphase_to_cnot_exact.
+
+(* ALL N, both swapping options: the CNOT-expanded circuit = the native circuit up to the global phase
+   e^{i * exp_angle}, exp_angle = sum of phi/2 over the controlled phases *)
+Theorem qft_to_cnot_upto_phase : forall N sw lt lf,
+  qft_gate_sequence N sw true = Some lt -> qft_gate_sequence N sw false = Some lf ->
+  forall psi, sem (map qden lt) psi = sscale (cis (exp_angle lf)) (sem (map qden lf) psi).
+Proof. exact to_cnot_upto_phase. Qed.
+Print Assumptions qft_to_cnot_upto_phase.
+
+(* BOUNDED (N <= 5): with native controlled phases and the final swaps the circuit IS the DFT matrix
+   2^(-N/2) e^{2 pi i jk/2^N} on qubits 0..N-1 (qubit 0 most significant), global phase included *)
+Theorem qft_is_dft_bounded_N5 : forall N l, (N <= 5)%nat -> qft_gate_sequence N true false = Some l ->
+  sem (map qden l) = sem [(dftC N, seq 0 N)].
+Proof. exact qft_is_dft_upto5. Qed.
+Print Assumptions qft_is_dft_bounded_N5.
+
+(* BOUNDED (N <= 5): the CNOT-expanded circuit with swaps is the DFT up to a global phase *)
+Theorem qft_cnot_is_dft_upto_phase_bounded_N5 : forall N lt lf, (N <= 5)%nat ->
+  qft_gate_sequence N true true = Some lt -> qft_gate_sequence N true false = Some lf ->
+  forall psi, sem (map qden lt) psi = sscale (cis (exp_angle lf)) (sem [(dftC N, seq 0 N)] psi).
+Proof. exact qft_cnot_is_dft_upto5. Qed.
+Print Assumptions qft_cnot_is_dft_upto_phase_bounded_N5.
+
+(* non-vacuity *)
+Example qft3_cnot_has_22_gates : exists l, qft_gate_sequence 3 true true = Some l /\ length l = 22%nat.
+Proof. eexists. split; [vm_compute; reflexivity| reflexivity]. Qed.
+Example qft3_native : option_map (map gname) (qft_gate_sequence 3 true false)
+  = Some ["SNOT"; "CPHASE"; "SNOT"; "CPHASE"; "CPHASE"; "SNOT"; "SWAP"].
+Proof. vm_compute. reflexivity. Qed.
